@@ -86,8 +86,28 @@ def _second_copy(o):
     return o.copy()
 
 
+def _copy_then_series_from_original(o):
+    """Copy, then hand the copy the original's own series back (attribute, key and replace_values in turn): the values are
+    the ones it already has, so the copy stays equal - and must stay independent (assignment copies values, not the array)."""
+    c = o.copy()
+    how = 0
+    for n in list(o.index):
+        arr = o[n] if not hasattr(o, 'aliases') else vars(o)['_' + n]
+        if not isinstance(arr, np.ndarray) or arr.dtype.kind != 'f':
+            continue
+        if how % 3 == 0:
+            setattr(c, n, arr)
+        elif how % 3 == 1:
+            c[n] = arr
+        else:
+            c.replace_values(**{n: arr})
+        how += 1
+    return c
+
+
 _FIRST_COPIES = []
-ROUTES = {'copy()': lambda o: o.copy(), 'copy.copy': copy.copy, 'copy.deepcopy': copy.deepcopy, 'second copy()': _second_copy}
+ROUTES = {'copy()': lambda o: o.copy(), 'copy.copy': copy.copy, 'copy.deepcopy': copy.deepcopy, 'second copy()': _second_copy,
+          'copy() + series from original': _copy_then_series_from_original}
 
 # --------------------------------------------------------------------------- mutation alphabet
 
@@ -101,6 +121,22 @@ def _solve(o):
     o.solve(**kw)
 
 
+class Box:
+    """A user object: hashable (by identity) and mutable."""
+
+    def __init__(self):
+        self.items = [1, 2]
+
+
+def _newattr(o):
+    o.foo = {'k': [1, 2], 'arr': np.zeros(2)}
+    o.box = Box()
+    base = VectorContainer(list(SPAN))
+    base.add_variable('V', 1.0)
+    o.baseline = base
+    o.pair = ([1, 2], 'x')
+
+
 def op_table(kind):
     v = 'L' if kind == 'linker' else 'Y'
     ops = {
@@ -108,7 +144,11 @@ def op_table(kind):
         'setattr': lambda o: setattr(o, v, 7.0),
         'setlabel': lambda o: o.__setitem__((v, 12), -3.0),
         'add_variable': lambda o: o.add_variable('Znew', [4, 5, 6, 7]),
-        'newattr': lambda o: setattr(o, 'foo', {'k': [1, 2], 'arr': np.zeros(2)}),   # an ad hoc attribute holding NESTED mutable objects
+        'newattr': _newattr,   # ad hoc attributes holding NESTED mutable objects, hashable ones (objects, containers, a tuple round a list) included
+        'box.append': lambda o: o.box.items.append(3) if 'box' in vars(o) else None,
+        'baseline.elem': lambda o: o.baseline['V'].__setitem__(0, 5.5) if 'baseline' in vars(o) else None,
+        'baseline.add_variable': lambda o: o.baseline.add_variable('W2', 1.0) if 'baseline' in vars(o) else None,
+        'pair[0].append': lambda o: o.pair[0].append(9) if 'pair' in vars(o) else None,
         'foo.append': lambda o: o.foo['k'].append(3) if 'foo' in vars(o) else o.add_attribute('foo', {'k': [9], 'arr': np.ones(2)}),
         'foo.arr[0]=': lambda o: o.foo['arr'].__setitem__(0, 7.0) if 'foo' in vars(o) else None,
         'strict': lambda o: setattr(o, 'strict', not o.strict),
@@ -350,6 +390,8 @@ def blocks(tier, seed):
     for kind in KINDS:
         for pre in PRE:
             for route in ROUTES:
+                if route == 'copy() + series from original' and pre not in ('none', 'solve'):
+                    continue
                 out.append({'kind': kind, 'pre': pre, 'route': route})
         # every single operation of the alphabet as a pre-history (post-histories of depth 1)
         for name in op_table(kind):
